@@ -6,7 +6,7 @@ Import ListNotations.
 Require Import Base.Py Model.InfoBase.
 Open Scope Z_scope.
 
-Record flac_p := mkFlac {
+Record flac_p := mkFlacP {
   fl_minbs : Z; fl_maxbs : Z;     (* 16 bits each *)
   fl_minfs : Z; fl_maxfs : Z;     (* 24 bits each *)
   fl_rate : Z;                    (* 20 bits, 0 invalid *)
@@ -78,6 +78,7 @@ Definition flac_streaminfo_write (p : flac_p) : result (list Z) :=
 
 Definition flac_p_of_list (l : list Z) : flac_p :=
   match l with
-  | [a; b; c; d; r; ch; bps; t; m] => mkFlac a b c d r ch bps t m
-  | _ => mkFlac 0 0 0 0 0 0 0 0 0
+  | [a; b; c; d; r; ch; bps; t; m] => mkFlacP a b c d r ch bps t m
+  | _ => mkFlacP 0 0 0 0 0 0 0 0 0
   end.
+(* EXTRACT: InfoFlac.build_flac_streaminfo InfoFlac.decode_flac_streaminfo InfoFlac.flac_streaminfo_write InfoFlac.flac_p_of_list InfoFlac.expected_flac *)
